@@ -198,9 +198,66 @@ def _transform_oracle(ctx: Ctx):
             ctx.fail(f"{f!r}: {type(e).__name__}: {e}", rp)
 
 
+CLIP_FORMULAS = ["cr(a, df=3, extrapolation='clip') + b", "bs(a, df=4, extrapolation='clip')", "cc(a, df=3, extrapolation='clip') + A",
+                 "bs(a, df=3, degree=1, extrapolation='clip'):A", "cr(a, df=4, extrapolation='clip', constraints='center')", "center(a) + scale(b)",
+                 "scale(a) + b", "poly(a, 2) + A", "bs(a, df=5, extrapolation='zero')"]
+
+
+def _recorded_zero_oracle(ctx: Ctx):
+    """recorded statistics that happen to be 0 (a mean, a bound) are recorded statistics like any other: data arranged so that the minimum,
+    the maximum or the mean of the training column is exactly 0, follow-up rows beyond the recorded range"""
+    import numpy as np
+    import pandas as pd
+    from formulaic import model_matrix
+    rng = ctx.fork("recorded-zero")
+    for i in range(ctx.n(80, 1000)):
+        n = rng.randint(6, 12)
+        a = [float(v) for v in rng.sample(range(-8, 9), n)]
+        shift = rng.choice(["max", "min", "mean", "none"])
+        if shift == "max":
+            a = [v - max(a) for v in a]
+        elif shift == "min":
+            a = [v - min(a) for v in a]
+        elif shift == "mean":
+            a = [v * n - sum(a) for v in a]            # integer data with mean exactly 0
+        df = pd.DataFrame({"a": a, "b": [float(rng.choice([-1, 0, 1])) * (k % 3 - 1) + 0.0 for k in range(n)],
+                           "A": pd.Series([["x", "y", "z"][k % 3] for k in range(n)], dtype=object)})
+        if shift == "mean":
+            df["b"] = [float(k) - (n - 1) / 2 for k in range(n)]
+        f = rng.choice(CLIP_FORMULAS)
+        out = rng.choice(["pandas", "numpy", "sparse"])
+        rp = {"kind": "recorded-zero", "formula": f, "a": a, "zero": shift, "output": out}
+        ctx.oracle_runs += 1
+        warnings.simplefilter("ignore")
+        try:
+            mm = model_matrix(f, df, output=out)
+            ms = mm.model_spec
+            base = np.asarray(mm.toarray() if out == "sparse" else mm, dtype=float)
+            state_before = pickle.dumps({k: {kk: (vv.tolist() if hasattr(vv, "tolist") else vv) for kk, vv in v.items()} for k, v in ms.transform_state.items()})
+            hi, lo = int(np.argmax(a)), int(np.argmin(a))
+            new = df.iloc[[hi, lo, 1, 2]].reset_index(drop=True)
+            beyond = "extrapolation='clip'" in f
+            if beyond:
+                new.loc[0, "a"] = a[hi] + 1.5          # clipped to the recorded upper bound: same row as the maximum
+                new.loc[1, "a"] = a[lo] - 2.5
+            got = ms.get_model_matrix(new)
+            got = np.asarray(got.toarray() if out == "sparse" else got, dtype=float)
+            want = base[[hi, lo, 1, 2], :]
+            if got.shape != want.shape or not np.allclose(got, want, rtol=1e-10, atol=1e-10, equal_nan=True):
+                ctx.fail(f"{f!r} trained on a={a}: follow-up rows {new['a'].tolist()} do not reproduce the rows of the recorded encoding "
+                         f"(recorded state {dict(ms.transform_state)})", rp)
+            state_after = pickle.dumps({k: {kk: (vv.tolist() if hasattr(vv, "tolist") else vv) for kk, vv in v.items()} for k, v in ms.transform_state.items()})
+            if state_after != state_before:
+                ctx.fail(f"{f!r}: re-using the spec changed its recorded state", rp)
+        except Exception as e:
+            ctx.fail(f"{f!r} trained on a={a}: {type(e).__name__}: {e}", rp)
+        ctx.count("recorded-zero", shift)
+
+
 def run(ctx: Ctx):
     _model_stream(ctx)
     _transform_oracle(ctx)
+    _recorded_zero_oracle(ctx)
 
 
 def search(ctx: Ctx):
